@@ -80,12 +80,16 @@ def gen_list(rng):
 def enc_colour(v):
     import fmt_workers as fw
     from proto import fbits
-    if isinstance(v, tuple):
-        return "t:%d,%d,%d" % v
+    from proto import t3
+    if isinstance(v, (tuple, list)):
+        return t3(v)
     m = fw.HSL_RE.match(v) if isinstance(v, str) else None
     if m:
-        return "h:" + ",".join(fbits(float(x)) for x in m.groups())
-    return "s:" + v.encode().hex()
+        try:
+            return "h:" + ",".join(fbits(float(x)) for x in m.groups())
+        except ValueError:
+            pass
+    return "s:" + v.encode().hex() if isinstance(v, str) else "x:" + repr(v)
 
 
 def check(run):
